@@ -27,16 +27,27 @@ CHECK_FLAGS_DEFAULT = ['--bounds-check', '--pointer-check', '--div-by-zero-check
 
 
 def sh(cmd, timeout=None, mem_gb=24, cwd=None):
-    """run with timeout and address-space limit; returns (rc, out, seconds); rc=-9 on timeout"""
+    """run with timeout and address-space limit; returns (rc, out, seconds); rc=-9 on timeout.
+    The command runs in its own process group and the WHOLE group is killed on timeout (cbmc forks the SMT solver: an orphaned
+    cvc5 otherwise keeps running with gigabytes of memory)."""
+    import signal
     t0 = time.time()
     pre = 'ulimit -v %d; ' % (mem_gb * 1024 * 1024)
+    p = subprocess.Popen(['bash', '-c', pre + 'exec "$@"', 'x'] + cmd, stdout=subprocess.PIPE, stderr=subprocess.STDOUT,
+                         text=True, cwd=cwd, errors='replace', start_new_session=True)
     try:
-        r = subprocess.run(['bash', '-c', pre + 'exec "$@"', 'x'] + cmd, stdout=subprocess.PIPE, stderr=subprocess.STDOUT,
-                           text=True, timeout=timeout, cwd=cwd, errors='replace')
-        return r.returncode, r.stdout, time.time() - t0
-    except subprocess.TimeoutExpired as e:
-        out = e.stdout if isinstance(e.stdout, str) else (e.stdout.decode(errors='replace') if e.stdout else '')
-        return -9, out + '\n[TIMEOUT after %ss]' % timeout, time.time() - t0
+        out, _ = p.communicate(timeout=timeout)
+        return p.returncode, out, time.time() - t0
+    except subprocess.TimeoutExpired:
+        try:
+            os.killpg(p.pid, signal.SIGKILL)
+        except ProcessLookupError:
+            pass
+        try:
+            out, _ = p.communicate(timeout=10)
+        except Exception:
+            out = ''
+        return -9, (out or '') + '\n[TIMEOUT after %ss]' % timeout, time.time() - t0
 
 
 def tree_stamp():
